@@ -148,6 +148,10 @@ def classify_divergence(kind, rest):
         m = re.match(r"model=(.*?) impl=(.*)$", rest)
         if m:
             a, b = m.group(1), m.group(2)
+            # the same refusal with another code of the same class (4xx / 5xx): the property constrains the class, not the code
+            ma, mb = re.match(r"ctl (\d)\d\d (.*)$", a), re.match(r"ctl (\d)\d\d (.*)$", b)
+            if ma and mb and ma.group(1) == mb.group(1) and ma.group(1) in "45" and ma.group(2) == mb.group(2):
+                return "same-class"
             acc = lambda s: s.startswith("ctl 200 ")
             if acc(a) != acc(b):
                 return "effect"
@@ -188,7 +192,7 @@ def shrink(R, runner, ops, which, budget=40):
         if rc != 0:
             return False
         o, d, _, _ = analyse([], run_runner(runner, trace, timeout=120))
-        kinds = set(w for (_, w, _) in o) | set(classify_divergence(k, r) for (_, k, r) in d)
+        kinds = set(w for (_, w, _) in o) | set(classify_divergence(k, r) for (_, k, r) in d) - {"same-class"}
         return which in kinds
     if len(cmds) > 1:
         cmds = vlib.ddmin(cmds, fails, budget=budget)
@@ -276,6 +280,7 @@ def run(R):
     n = 250 if R.quick else 20000
     configs = [("nametree", n, True), ("hashtable", 60 if R.quick else 3000, False)]
     reported = {}
+    same_class_notes = {}
     kinds, labels, resp_kinds = {}, {}, {}
     distinct = set()
     ncmds = ncases = 0
@@ -358,6 +363,9 @@ def run(R):
         for (ln, kind, rest) in diverge:
             cls = classify_divergence(kind, rest)
             cmdline = lines[ln - 1] if lines[ln - 1].startswith("CMD ") else "CMD ? -"
+            if cls == "same-class":
+                same_class_notes[hexname_words(cmdline.split(" ")[2])[1] if len(cmdline.split(" ")) > 2 else "?"] = rest[:160]
+                continue
             if cls is None:
                 c = case_of(ln)
                 R.divergence("model and implementation disagree on %s at trace line %d (%s FIB): %s" % (kind, ln, algo, rest[:300]),
@@ -369,6 +377,10 @@ def run(R):
                 continue
             reported[sig] = dict(count=1, which=cls, detail=kind + " " + rest, cmdline=cmdline, ops=list((case_of(ln) or {}).get("ops", [])), fib=algo)
 
+    if same_class_notes:
+        R.notes.append("status code differs from the model's within the same class (4xx/5xx) - not constrained by the property: " +
+                       "; ".join("%s: %s" % kv for kv in list(same_class_notes.items())[:8]))
+        R.coverage["status_code_differences_within_class"] = same_class_notes
     top_kinds = dict(sorted(kinds.items(), key=lambda kv: -kv[1])[:40])
     R.coverage["distribution"] = dict(histories=ncases, histories_by_fib_algorithm=per_config, commands=ncmds, commands_by_module_verb=top_kinds,
                                       adversarial_labels=labels, responses=resp_kinds)
